@@ -81,6 +81,8 @@ type ListSys[T comparable] struct {
 	N      int
 	Cmps   map[string]func(a, b T) int // nat, rev, coarse
 	Ctor   bool                        // root built by New(values...) variants too
+	// JSONTexts: inputs offered as FromJSON operations (null entries over whatever the backing array held)
+	JSONTexts []string
 	// Deep mode (data independence): every inserted value is fresh (Gen(counter)) and of a type
 	// the fingerprint drops, so the state is (length, capacity) only and sizes of 40-100 are
 	// affordable; the alphabet is reduced to the index alignments that matter.
@@ -263,6 +265,9 @@ func (b *listBox[T]) Ops() []Op {
 		ops = append(ops, op("Sort", c))
 	}
 	ops = append(ops, op("Clear"))
+	for ti := range b.sys.JSONTexts {
+		ops = append(ops, op("FromJSON", ti))
+	}
 	return ops
 }
 
@@ -280,6 +285,8 @@ func (b *listBox[T]) Describe(o Op) string {
 		return fmt.Sprintf("Swap(%d, %d)", o.A[0], o.A[1])
 	case "Sort":
 		return fmt.Sprintf("Sort(%s)", cmpNames[o.A[0]])
+	case "FromJSON":
+		return fmt.Sprintf("FromJSON(%s)", b.sys.JSONTexts[o.A[0]])
 	}
 	return o.N + "()"
 }
@@ -381,6 +388,14 @@ func (b *listBox[T]) Do(o Op) *Viol {
 	case "Clear":
 		b.a.clear()
 		b.ref = nil
+	case "FromJSON":
+		data := []byte(b.sys.JSONTexts[o.A[0]])
+		if err := b.a.obj.(interface{ FromJSON([]byte) error }).FromJSON(data); err != nil {
+			return viol(tag("C03", "C12"), "mismatch", "FromJSON(%s) failed: %v", data, err)
+		}
+		if !b.LoadRef(data) {
+			panic("tool error: reference cannot decode " + string(data))
+		}
 	default:
 		panic("list op " + o.N)
 	}
